@@ -349,3 +349,38 @@ def split_run_stdout(out):
 def pmap(fn, items, workers=None):
     with ThreadPoolExecutor(max_workers=workers or NCPU) as ex:
         return list(ex.map(fn, items))
+
+
+# ---------------------------------------------------------------- compiled programs (C03, C14)
+
+TARGET_NUM = os.path.join(BUILD, "target-num")
+
+
+def build_numlib():
+    """the number-only build of /repo that emitted programs link against"""
+    rc, out = sh("cargo build --offline --target-dir %s" % TARGET_NUM, cwd=os.path.join(VERIF, "numlib"), check=False, timeout=1800)
+    if rc != 0:
+        raise BuildError("number-only library build failed:\n" + out[-4000:])
+    deps = os.path.join(TARGET_NUM, "debug", "deps")
+    rl = sorted([f for f in os.listdir(deps) if f.startswith("libhyeong-") and f.endswith(".rlib")],
+                key=lambda f: os.path.getmtime(os.path.join(deps, f)))
+    return os.path.join(deps, rl[-1])
+
+
+def rustc_program(src_text, out_path, rlib):
+    """returns (ok, compiler output)"""
+    src = out_path + ".rs"
+    with open(src, "w", encoding="utf-8") as fh:
+        fh.write(src_text)
+    rc, out = sh(["rustc", "--edition", "2018", "-A", "warnings", "--extern", "hyeong=" + rlib, "-L", "dependency=" + os.path.dirname(rlib),
+                  "-C", "debuginfo=0", "-o", out_path, src], check=False, timeout=300)
+    return rc == 0, out
+
+
+def run_exe(path, stdin_bytes=b"", timeout=5):
+    try:
+        p = subprocess.run([path], input=stdin_bytes, stdout=subprocess.PIPE, stderr=subprocess.PIPE, timeout=timeout)
+    except subprocess.TimeoutExpired as e:
+        return "timeout", e.stdout or b"", e.stderr or b""
+    rc = p.returncode
+    return ("exit%d" % rc if rc >= 0 else "signal%d" % (-rc)), p.stdout, p.stderr
